@@ -333,9 +333,24 @@ fn all_cases_of(text: &str) -> Vec<Case> {
     v
 }
 
+/// Characters beyond the property's alphabet, sampled only: every C0 control and DEL (each has its own
+/// picture), a second wide character, a 4-byte wide character, a 3-byte narrow one.
+pub const EXTENDED: [char; 40] = [
+    '\u{0}', '\u{1}', '\u{2}', '\u{3}', '\u{4}', '\u{5}', '\u{6}', '\u{7}', '\u{8}', '\u{9}', '\u{a}', '\u{b}', '\u{c}', '\u{d}', '\u{e}', '\u{f}',
+    '\u{10}', '\u{11}', '\u{12}', '\u{13}', '\u{14}', '\u{15}', '\u{16}', '\u{17}', '\u{18}', '\u{19}', '\u{1a}', '\u{1b}', '\u{1c}', '\u{1d}', '\u{1e}', '\u{1f}',
+    '\u{7f}', '字', '😀', '∆', ' ', 'Z', '\n', '\n',
+];
+
 /// Swarm-style random short text: per-case weights, CRLF on/off, trailing newline on/off.
 fn random_short(rng: &mut SplitMix, min_len: usize, max_len: usize) -> String {
     let len = min_len + rng.below(max_len - min_len + 1);
+    if rng.chance(1, 5) {
+        let mut s = String::new();
+        for _ in 0..len {
+            s.push(if rng.chance(1, 3) { ALPHABET[rng.below(6)] } else { EXTENDED[rng.below(EXTENDED.len())] });
+        }
+        return s;
+    }
     let mut weights = [0usize; 6];
     for w in weights.iter_mut() {
         *w = 1 + rng.below(4);
